@@ -293,6 +293,41 @@ func genTable(cfg Config, emit func(string, bool, []string)) {
 			// iterator closed while it still has unobserved deletions: nothing may stay
 			// retained once the collector has handled the triggers the close produced
 			nit := 1 + r.IntN(2)
+			if c%20 == 15 {
+				// Changes() in a transaction that is then aborted registers nothing: later deletions
+				// are not retained for it, and its iterator never sees them
+				g.add("wtxn ma")
+				g.add("ins m %s 1 0 - - 0 1", hx([]byte("k0")))
+				g.add("ins a %s 1 0 - - 0 1", hx([]byte("k0")))
+				g.add("commit")
+				g.nsnap++
+				g.add("wtxn ma")
+				g.add("changes m")
+				nab := 1
+				if r.IntN(2) == 0 {
+					g.add("changes a")
+					nab = 2
+				}
+				g.add("abort")
+				g.add("wtxn ma")
+				g.add("del m %s", hx([]byte("k0")))
+				g.add("del a %s", hx([]byte("k0")))
+				g.add("commit")
+				g.nsnap++
+				g.add("gcidle")
+				g.add("glen - m")
+				g.add("glen - a")
+				g.add("rtxn")
+				g.nsnap++
+				for i := 0; i < nab; i++ {
+					g.add("next %d s%d -1", i, g.nsnap-1)
+				}
+				g.add("gcidle")
+				g.add("glen - m")
+				g.add("glen - a")
+				emit("table changes-in-aborted-txn", true, g.ops)
+				continue
+			}
 			g.add("wtxn m")
 			for i := 0; i < nit; i++ {
 				g.add("changes m")
@@ -472,6 +507,58 @@ func genTable(cfg Config, emit func(string, bool, []string)) {
 				g.add("commit")
 				g.nsnap++
 			}
+			// a key whose node has exactly ONE child ("p" above "pq"), first touched by the transaction
+			// (update / failed CAS / delete of a sibling) and then deleted in the same transaction:
+			// the child is pulled up and must be copied, not edited where older snapshots see it
+			g.add("wtxn m")
+			put("p", 60)
+			put("pq", 61)
+			twoKids := r.IntN(2) == 0
+			if twoKids {
+				put("pr", 62)
+			}
+			g.add("commit")
+			g.nsnap++
+			g.add("rtxn")
+			g.nsnap++
+			{
+				h := fmt.Sprintf("s%d", g.nsnap-1)
+				ask := func(hh string) {
+					g.add("get %s m id %s", hh, hx([]byte("pq")))
+					g.add("prefix %s m id %s", hh, hx([]byte("p")))
+					g.add("lb %s m id %s", hh, hx([]byte("pq")))
+					g.add("list %s m id %s", hh, hx([]byte("pq")))
+				}
+				ask(h)
+				g.add("wtxn m")
+				switch r.IntN(3) {
+				case 0:
+					put("p", 63)
+				case 1:
+					g.add("cas m big %s 1 0 - - 0 %d", hx([]byte("p")), ord)
+				case 2:
+					if twoKids {
+						g.add("del m %s", hx([]byte("pr")))
+					} else {
+						put("p", 64)
+					}
+				}
+				if twoKids && r.IntN(2) == 0 {
+					g.add("del m %s", hx([]byte("pr")))
+				}
+				g.add("del m %s", hx([]byte("p")))
+				ask(h)
+				if r.IntN(2) == 0 {
+					g.add("abort")
+				} else {
+					g.add("commit")
+					g.nsnap++
+				}
+				ask(h)
+				g.add("rtxn")
+				g.nsnap++
+				ask(fmt.Sprintf("s%d", g.nsnap-1))
+			}
 			// a key inserted that ends INSIDE the compressed prefix of an inner node of the primary
 			// index: prefix watchers whose prefix ends inside that edge hold the node's channel
 			g.add("wtxn m")
@@ -540,6 +627,33 @@ func genTable(cfg Config, emit func(string, bool, []string)) {
 				}
 				g.add("list %s m lpm x0a00/8", h)
 				g.add("prefix %s m lpm x0000/0", h)
+			}
+			// a write transaction over NO tables (legal: locks nothing) that spans another
+			// transaction's commit: its own commit / abort changes nothing anybody can see
+			for k := 0; k < 2; k++ {
+				g.add("rtxn")
+				g.nsnap++
+				h := fmt.Sprintf("s%d", g.nsnap-1)
+				g.add("rev %s m", h)
+				g.add("byrev %s m 0", h)
+				g.add("wtxn -")
+				g.add("side m %s %d 0 - - 0 %d", hx([]byte{'e', byte('0' + k)}), 70+k, ord)
+				ord++
+				g.add("rev w m")
+				g.add("rev %s m", h)
+				if k == 0 || r.IntN(3) != 0 {
+					g.add("commit")
+					g.nsnap++
+				} else {
+					g.add("abort")
+				}
+				g.add("rev %s m", h)
+				g.add("byrev %s m 0", h)
+				g.add("get %s m id %s", h, hx([]byte{'e', byte('0' + k)}))
+				g.add("rtxn")
+				g.nsnap++
+				g.add("rev s%d m", g.nsnap-1)
+				g.add("get s%d m id %s", g.nsnap-1, hx([]byte{'e', byte('0' + k)}))
 			}
 			for sn := 0; sn < g.nsnap; sn++ {
 				g.sweep(fmt.Sprintf("s%d", sn), 3)
@@ -906,6 +1020,7 @@ type tIter struct {
 	trackRev   uint64 // last deletion revision handed (or creation revision)
 	registered bool   // the creating transaction was committed (its tracker is in the committed root)
 	pendingReg bool   // created in the transaction that is still open
+	abortedReg bool   // created in a transaction that was aborted
 }
 
 type keptSeq struct {
@@ -947,6 +1062,7 @@ type tableExec struct {
 	txnRejectedCASOnly bool
 	txnWrites          map[string]int
 	txnRejects         map[string]int
+	glenAtBegin        map[string]int
 }
 
 func newTableExec(h string) *tableExec {
@@ -1401,13 +1517,21 @@ func (e *tableExec) do(o *Out, f []string) string {
 		}
 		var metas []statedb.TableMeta
 		for _, c := range f[1] {
-			metas = append(metas, e.tbl(string(c)))
+			if c == 'm' || c == 'a' {
+				metas = append(metas, e.tbl(string(c)))
+			}
 		}
 		e.wtxn = e.db.WriteTxn(metas...)
 		e.wtables = f[1]
 		e.txnRef = e.committed.clone()
 		e.txnBase = e.committed
 		e.txnWrites, e.txnRejects = map[string]int{}, map[string]int{}
+		e.glenAtBegin = map[string]int{}
+		for _, c := range f[1] {
+			if c == 'm' || c == 'a' {
+				e.glenAtBegin[string(c)] = statedb.VerifGraveyardLen(e.wtxn, e.tbl(string(c)))
+			}
+		}
 		return "ok"
 	case "commit":
 		if e.wtxn == nil {
@@ -1416,6 +1540,25 @@ func (e *tableExec) do(o *Out, f []string) string {
 		rtx := e.wtxn.Commit()
 		e.lastHandle = e.wtxn
 		e.wtxn = nil
+		// a deletion is only retained for a change iterator that exists: with no tracker registered
+		// (before or by this transaction) the graveyard cannot have grown
+		for tn, before := range e.glenAtBegin {
+			if e.txnRef.t(tn).ntrack == 0 {
+				if now := statedb.VerifGraveyardLen(rtx, e.tbl(tn)); now > before {
+					ab := 0
+					for _, it := range e.iters {
+						if it.table == tn && it.abortedReg {
+							ab++
+						}
+					}
+					if ab > 0 {
+						o.Fail("C02", "aborted-changes-left-tracker", map[string]string{"table": tn}, fmt.Sprintf("table %s: %d deleted objects retained by a commit although no change iterator is registered; %d iterator(s) were created by Changes() in transactions that were aborted — the abort left their registration behind", tn, now-before, ab))
+					} else {
+						o.Fail("C08", "retained-without-tracker", map[string]string{"table": tn}, fmt.Sprintf("table %s: %d deleted objects retained by a commit although no change iterator is registered", tn, now-before))
+					}
+				}
+			}
+		}
 		for _, it := range e.iters {
 			if it.pendingReg {
 				it.pendingReg, it.registered = false, true
@@ -1447,7 +1590,7 @@ func (e *tableExec) do(o *Out, f []string) string {
 			for _, it := range e.iters {
 				if it.pendingReg {
 					// N3: tracks nothing; for the retention oracle it is not an open iterator
-					it.pendingReg, it.closed = false, true
+					it.pendingReg, it.closed, it.abortedReg = false, true, true
 				}
 			}
 		}
